@@ -962,6 +962,10 @@ func (vc *VC) convertTo(v Term, from, to types.Type, pos token.Pos) Term {
 	if to == nil {
 		return v
 	}
+	if v.Sort == sHState {
+		// a hasher held as its abstract state (hasher.go) stays what it is
+		return v
+	}
 	ts := vc.ss.sortOf(to)
 	if v.Sort == ts {
 		if v.T == nil {
